@@ -388,10 +388,10 @@ class Target:
     eps: None = exact, else absolute tolerance (rounding regime); box: None or bound on |x_i| (rounding regime);
     tighten: None or tau -> iterate over *reference* pieces tightened by tau (LP-tolerance policy)"""
 
-    def __init__(self, label, tree, export, upto, ref, eps=None, box=None, tighten=None, sig="value", breakpoint_margin=None):
+    def __init__(self, label, tree, export, upto, ref, eps=None, box=None, tighten=None, sig="value", extra_fn=None):
         self.label, self.tree, self.export, self.upto, self.ref = label, tree, export, upto, ref
         self.eps, self.box, self.tighten, self.sig = eps, box, tighten, sig
-        self.breakpoint_margin = breakpoint_margin
+        self.extra_fn = extra_fn      # xs -> extra z3 constraints on the input (e.g. 'away from the breakpoints of the reference')
 
 
 def solve_targets(targets, conv, in_dim, want_points=False, rng=None, canary=False):
@@ -406,6 +406,8 @@ def solve_targets(targets, conv, in_dim, want_points=False, rng=None, canary=Fal
         extra = []
         if t.box is not None:
             extra = [z3.And(x <= t.box, x >= -t.box) for x in q.xs]
+        if t.extra_fn is not None:
+            extra = extra + list(t.extra_fn(q.xs))
         if t.tighten is not None:
             bad = find_difference(q, t.ref, tp, eps=t.eps, tighten=t.tighten, extra=extra, tag=t.label)
             # count reference pieces that are non-empty but too thin to contain a tightened point
